@@ -295,7 +295,11 @@ def r04_5(ctx, v):
     conv = repo.module("gaftools.conversion", "R04.5")
     gens = [f for f in conv.funcs.values() if any(isinstance(n, (ast.Yield, ast.YieldFrom)) for n in walk_own(f.node))]
     n = 0
-    for g in gens:
+    from ..core import same_func, tail_inlined
+
+    public = [g for g in gens if any(cf.module is not conv for cf, _ in repo.callers_of(g))]
+    for g0 in public or gens:
+        g = tail_inlined(repo, g0)  # `yield from helper(path, converter, *aux)` is read with the helper inlined
         ys = [x for x in walk_own(g.node) if isinstance(x, ast.Yield) and isinstance(x.value, ast.Call)]
         if not ys:
             continue
@@ -307,7 +311,7 @@ def r04_5(ctx, v):
         fwd = [norm(a) for a in inner.args[1:]]
         ok_fwd = fwd == g.params[1:]
         ctx.check(ok_fwd, "R04.5", g.where(ys[0]), f"{g.qualname} forwards its auxiliary arguments to {line_conv.qualname} unchanged and in order", key_of(g, f"forward:{fwd}"), forwarded=fwd, params=g.params[1:])
-        gen_calls = [c for c in walk_own(run.node) if isinstance(c, ast.Call) and repo.resolve_call(run, c) is g]
+        gen_calls = [c for c in walk_own(run.node) if isinstance(c, ast.Call) and same_func(repo.resolve_call(run, c), g)]
         line_calls = [c for c in walk_own(run.node) if isinstance(c, ast.Call) and repo.resolve_call(run, c) is line_conv]
         if not gen_calls or not line_calls:
             ctx.violated("R04.5", run.where(), f"view does not offer both routes (whole file / selection) for {line_conv.qualname}", key_of(run, f"routes:{line_conv.qualname}"))
